@@ -36,6 +36,9 @@
 (*        of a 2x2 table, one cell per line and || / !! separated, spaced and  *)
 (*        tight).  Expected map = TreeOf: the written value, i.e. what stands  *)
 (*        between the ONE pair of delimiters ("ATTRT": full cross, thorough)   *)
+(*        + "NAME": the CHARACTERS of one attribute NAME (one character of the  *)
+(*        per-site table ParserStruct.NameCharsAt inside / at the end / twice)   *)
+(*        x delimiters x rest of the map x site; expected = the written name    *)
 (*   "FILE" : pages read from IOEnv.PAGES_FILE (random wider grids, V)        *)
 (* Part/Parts split a universe over parallel TLC processes.                   *)
 EXTENDS ParserStruct, Json, IOUtils
@@ -208,6 +211,48 @@ AttrPagesAll(z) ==
       v \in { w \in Specials(z) \X (0..4) \X AttrTags \X (1..3) : KeepH(w[1], w[2], w[3], w[4]) } }
 AttrPages(z) == { pg \in AttrPagesAll(z) : Admissible(pg) /\ Len(Render(pg)) % Parts = Part }
 
+(* ---------------- written attributes: characters of a NAME x site x delimiters ---------------- *)
+\* The name of the attribute under test is written character by character (ParserStruct.HasWrittenName): plain
+\* words and ONE punctuation character ch of the site's table ParserStruct.NameCharsAt (start tags: - : _ . ;
+\* table positions additionally ~ ; , ( ) ? @ + * $ % & #) - inside the name, at its end, twice - x the
+\* delimiters of its value (" ' none, blanks around = by parity) x the rest of the map (alone / after a plain
+\* attribute / before one) x the SITE (the eight table positions in both separator styles, start tags of span
+\* div abbr).  Expected map = TreeOf = the written map: the name is everything in front of the '='.
+\* Case.strict (UrlSafePage) is TRUE only for names over letters, digits, - . _ ~ :
+WN(nw, w, q, eq) == [nw |-> nw, w |-> w, q |-> q, eq |-> eq]
+NameShapes(ch) == << <<"d", ch, "1">>, <<"d1", ch>>, <<"a", ch, "b", ch, "c">> >>
+NameQ == <<"dq", "sq", "none">>
+NameValue(q) == IF q = "none" THEN <<"x~y">> ELSE <<"a-b", ":", "x~y">>
+NameCompanion(sp, c) ==
+  CASE c = 0 -> <<sp>>
+    [] c = 1 -> <<Attr("id", "x1"), sp>>
+    [] c = 2 -> <<sp, WA("class", <<"a-b">>, "none", FALSE)>>
+\* characters in a fixed order (the thinning of the quick universe is by index)
+TableNameCharSeq == <<"-", "_", ".", ":", "~", ";", ",", "(", ")", "?", "@", "+", "*", "$", "%", "&", "#">>
+TagNameCharSeq == <<"-", "_", ".", ":">>
+NameFull == Universe \in {"ATTRT", "NAMET"}
+\* quick: the URL-safe characters (index <= 5) at every site x separator style x shape, every other character
+\* inside the name at every site; delimiters, companion, spacing tied to the indices
+NameKeepT(ci, sh, qi, c, si, sep, sp) ==
+  (NameFull /\ sp = ((ci + sh + si + qi + c) % 2 = 0))      \* thorough: the full cross but the spacing
+  \/ (/\ qi = ((ci + sh + si) % 3) + 1
+               /\ c = (ci + si + (IF sep = "line" THEN 0 ELSE 1)) % 3
+               /\ sp = ((ci + sh + si) % 2 = 0)
+               /\ (ci <= 5 \/ (sh = 1 /\ sep = (IF (ci + si) % 2 = 0 THEN "line" ELSE "inline"))))
+NameKeepH(ci, sh, qi, c, sn) == NameFull \/ (qi = ((ci + sh) % 3) + 1 /\ c = (ci + sh) % 3 /\ sn = ((ci + sh) % 3) + 1)
+NameAttr(chs, ci, sh, qi) == WN(NameShapes(chs[ci])[sh], NameValue(NameQ[qi]), NameQ[qi], (ci + sh) % 2 = 0)
+NamePagesAll(z) ==
+  { <<AttrTable(TableSites[v[5]], NameCompanion(NameAttr(TableNameCharSeq, v[1], v[2], v[3]), v[4]), v[6], v[7], v[1] + v[2] + v[5])>> :
+      v \in { w \in (1..Len(TableNameCharSeq)) \X (1..3) \X (1..3) \X (0..2) \X (1..Len(TableSites)) \X {"line", "inline"} \X BOOLEAN :
+               NameKeepT(w[1], w[2], w[3], w[4], w[5], w[6], w[7]) } }
+  \cup { Surround(v[6], Ht(v[5], NameCompanion(NameAttr(TagNameCharSeq, v[1], v[2], v[3]), v[4]), W("x1"))) :
+      v \in { w \in (1..Len(TagNameCharSeq)) \X (1..3) \X (1..3) \X (0..2) \X AttrTags \X (1..3) :
+               NameKeepH(w[1], w[2], w[3], w[4], w[6]) } }
+NamePages(z) == { pg \in NamePagesAll(z) : Admissible(pg) /\ Len(Render(pg)) % Parts = Part }
+\* the tables are what the universe runs over (a character of a table that is missing here is never tried)
+ASSUME {TableNameCharSeq[i] : i \in 1..Len(TableNameCharSeq)} = TableNameChars
+ASSUME {TagNameCharSeq[i] : i \in 1..Len(TagNameCharSeq)} = TagNameChars
+
 (* ---------------- calls and links ---------------- *)
 ArgCat ==
   << W("a1"), <<T(<<"SP", "a1", "SP">>)>>, <<T(<<"k", "=", "v1">>)>>, <<>>,
@@ -335,7 +380,8 @@ Pages ==
     [] Universe = "CALL" -> CallPages(0)
     [] Universe \in {"PAIR", "PAIRT"} -> PairPages(0)
     [] Universe \in {"HIST", "HISTT"} -> Histories(0)      \* here `page` is a history: Seq([op, page])
-    [] Universe \in {"ATTR", "ATTRT"} -> AttrPages(0)
+    [] Universe \in {"ATTR", "ATTRT"} -> AttrPages(0) \cup NamePages(0)
+    [] Universe \in {"NAME", "NAMET"} -> NamePages(0)          \* the name family alone
     [] Universe = "FILE" -> FilePages(0)
 
 \* `done` only keeps TLC from evaluating the invariant twice per structure
@@ -404,6 +450,9 @@ DemoAttr(dev) == done \/ Equiv(Run(Render(page), dev).stack[1], TreeOf(page))
 DemoAttrGreedy == DemoAttr({"QuotesStrippedGreedily"})
 DemoAttrEverywhere == DemoAttr({"QuotesRemovedEverywhere"})
 DemoAttrAnyQuote == DemoAttr({"ValueEndsAtAnyQuote"})
+\* ... and a parse_attrs whose NAME class is the positive class of start tags: TLC finds the table position
+\* whose written name it cuts (universe "NAME")
+DemoAttrNameClass == DemoAttr({"NameClassOfStartTags"})
 \* Demo: with the found behaviour of table_cell_fn the law fails (a caption followed by a data cell)
 DemoAsIs == done \/ Equiv(Run(Render(page), AllParserDevs).stack[1], TreeOf(page))
 =============================================================================
